@@ -7,6 +7,12 @@ PY = "/venv/bin/python"
 
 # property id -> (design section, technique, level text, level note)
 BUILT = {
+    "C03": ("§4.3", "exhaustive enumeration of every (limit, context) chain n = L-3..L+6 on the real pipeline with an "
+            "iff oracle computed by the reference model",
+            "For each of the five limits every generated context (line kind x position x tab mix; body shape x "
+            "function position; parameter/variable mixes) is explored across the threshold; the limit diagnostic must "
+            "appear iff n > L, on the right line, and the at-limit file must be error-free.",
+            "Trusts the independent column function of mc/model/lexref.py and the context generators of mc/props/c03.py."),
     "C02": ("§4.2", "explicit-state search of the C01 product graph; on every selected transition every catalogue "
             "operator is applied at every site of the last block (deviation bound 1) and run on the real pipeline",
             "All (state, block, operator, site) combinations within the bounds are executed; the operator's code must "
